@@ -17,11 +17,16 @@ def run(ctx):
     from . import guardvocab
     guardvocab.G0(ctx, effects={'backtrack', 'branch'})
     guardvocab.G1(ctx, effects={'backtrack', 'branch'})
+    guardvocab.G2(ctx, scopes=('rt::path::', 'model::Builder::'))
+    guardvocab.G3(ctx, scopes=('rt::path::', 'model::Builder::'))
     pathrules.B1(ctx)
     pathrules.X3(ctx)
     pathrules.B2(ctx)
     pathrules.B3(ctx)
     pathrules.B4(ctx)
+    pathrules.B4b(ctx)
+    # the preemption budget does not depend on the exploring flag (a paused region must not buy extra preemptions)
+    pathrules.E2(ctx)
     modelrules.B5(ctx)
     # a race found while exploration is paused still moves the *earlier*, explored decision: the DPOR scan is unconditional
     from . import g_dpor
